@@ -122,6 +122,7 @@ type Exec struct {
 	top      *frame
 	randCtr  int64
 	hooks    *threadSched
+	frozen   *frozenSet
 }
 
 type obs struct {
@@ -1079,6 +1080,9 @@ func (ex *Exec) concretizeSize(fr *frame, v value, msg string) int {
 
 // noteWrite is a hook for write tracking (frozen regions, lock discipline).
 func (ex *Exec) noteWrite(fr *frame, addr interface{}) {
+	if ex.frozen != nil {
+		ex.checkFrozenWrite(fr, addr)
+	}
 	if ex.hooks != nil {
 		ex.hooks.noteWrite(fr, addr)
 	}
